@@ -286,18 +286,24 @@ func runSysOne(e *Env, cfg sysCfg, record bool) (cases []string) {
 				}
 				var res []byte
 				var err error
+				var call *rpc.Call
 				switch (g + i) % 3 {
 				case 0:
-					err = conn.Call("Sys.Hash", &args, &res)
+					// (Call is Go + wait; done here with a deadline so that a lost completion is reported, not waited for)
+					call = conn.Go("Sys.Hash", &args, &res, make(chan *rpc.Call, 1))
 				case 1:
-					call := conn.Go("Sys.Hash", &args, &res, make(chan *rpc.Call, 1))
-					<-call.Done
-					err = call.Error
+					call = conn.Go("Sys.Hash", &args, &res, make(chan *rpc.Call, 1))
 				default:
-					call := &rpc.Call{ServiceMethod: "Sys.Hash", Args: &args, Reply: &res, Done: make(chan *rpc.Call, 1)}
+					call = &rpc.Call{ServiceMethod: "Sys.Hash", Args: &args, Reply: &res, Done: make(chan *rpc.Call, 1)}
 					conn.RoundTrip(call)
-					<-call.Done
+				}
+				select {
+				case <-call.Done:
 					err = call.Error
+				case <-time.After(20 * time.Second):
+					atomic.AddInt32(&bad, 1)
+					e.fail("C01-call-never-completes", fmt.Sprintf("caller %d call %d (args %d bytes) on a healthy connection was not completed within 20s", g, i, n), replay)
+					return
 				}
 				e.count("call-"+lenClass(n), fmt.Sprintf("%s-%v-%v-%v-%v-%d-%s", cfg.encoder, cfg.cliPipe, cfg.cliDirect, cfg.srvPipe, cfg.srvDirect, cfg.chunkMode, lenClass(n)))
 				if err != nil {
@@ -318,13 +324,35 @@ func runSysOne(e *Env, cfg sysCfg, record bool) (cases []string) {
 		a1, a2 := []byte("F"), []byte("E")
 		var r1 []byte
 		call := &rpc.Call{ServiceMethod: "Sys.Empty", Args: &a1, Reply: &r1, Done: make(chan *rpc.Call, 2)}
+		waitCall := func() {
+			select {
+			case <-call.Done:
+			case <-time.After(20 * time.Second):
+				e.fail("C01-call-never-completes", "a call on a healthy connection was not completed within 20s", replay)
+			}
+		}
 		conn.RoundTrip(call)
-		<-call.Done
+		waitCall()
 		first := string(r1)
 		call.Args = &a2
 		r1 = nil
 		conn.RoundTrip(call)
-		<-call.Done
+		waitCall()
+		// and with fresh calls: an empty reply right after a full one
+		var f1, f2 []byte
+		c1 := conn.Go("Sys.Empty", &a1, &f1, make(chan *rpc.Call, 1))
+		select {
+		case <-c1.Done:
+		case <-time.After(20 * time.Second):
+		}
+		c2 := conn.Go("Sys.Empty", &a2, &f2, make(chan *rpc.Call, 1))
+		select {
+		case <-c2.Done:
+		case <-time.After(20 * time.Second):
+		}
+		if c2.Error != nil || string(f1) != "full" || len(f2) != 0 {
+			e.fail("C01-wrong-reply", fmt.Sprintf("a call whose handler returned an empty reply got %q (err=%v) right after a call that got %q", f2, c2.Error, f1), replay)
+		}
 		if call.Error != nil || first != "full" || len(r1) != 0 {
 			e.fail("C01-stale-reply-on-reused-call", fmt.Sprintf("reused Call: first reply %q, second (empty) reply arrived as %q err=%v", first, r1, call.Error), replay)
 		}
